@@ -15,7 +15,8 @@ from dsim import depth as DP
 PROPERTY = "C10"
 SRC_DIR = None
 KNOWN_PREDICATES = {}
-LEVEL_TEXT = ('Seeded search over mutation/iteration histories: member additions (rules, dates, exclusions; cached members shared between sets) interleaved with creation, partial advance, abandonment and exhaustion of up to three live iterators and with queries, mirrored on a cached and an uncached rruleset. Everything started after a mutation must equal the set-algebra model recomputed from the members present; iterators created before it keep being advanced (to expose interference) but their own output is not judged.')
+LEVEL_TEXT = ('Seeded search over mutation/iteration histories: member additions (rules, dates, exclusions; cached members shared between sets) interleaved with creation, partial advance, abandonment and exhaustion of up to three live iterators and with queries, mirrored on a cached and an uncached rruleset. Everything started after a mutation must equal the set-algebra model recomputed from the members present; iterators created before it keep being advanced (to expose interference) but their own output is not judged.'
+    ' Session 3 added: timezone-aware runs whose members are spelled in three different UTC offsets, recurrence sets as members of the set, a member object added twice or to both roles, queries aimed at member instants that an exclusion removes, sub-second listed dates, the first representable instants.')
 LEVEL_NOTE = ('Trusted: uncached listing of each member rule (C01 not judged); Python set/sorted as the set algebra. Single-threaded histories only, as the property states.')
 TECHNIQUE = ('deterministic simulation of mutation/iteration histories against a set-algebra reference model')
 
